@@ -107,6 +107,11 @@ pub struct Params {
     pub noop_timeout_ms: u64,
     pub learner_throttle_ms: u64,
     pub idle_flush_ms: u64,
+    pub watch_queue: usize,
+    pub watch_buf: usize,
+    pub watch_hb_ms: u64,
+    /// snapshot chunk size in bytes (0 = repository default)
+    pub snapshot_chunk: usize,
 }
 
 impl Default for Params {
@@ -131,6 +136,10 @@ impl Default for Params {
             noop_timeout_ms: 3_000,
             learner_throttle_ms: 100,
             idle_flush_ms: 200,
+            watch_queue: 1000,
+            watch_buf: 10,
+            watch_hb_ms: 0,
+            snapshot_chunk: 0,
         }
     }
 }
@@ -202,6 +211,9 @@ pub fn make_config(p: &Params, id: u32, initial: Vec<NodeMeta>, dir: &Path) -> R
     c.raft.snapshot.max_log_entries_before_snapshot = p.snapshot_threshold;
     c.raft.snapshot.snapshot_cool_down_since_last_check = Duration::from_millis(0);
     c.raft.snapshot.retained_log_entries = p.retained;
+    if p.snapshot_chunk > 0 {
+        c.raft.snapshot.chunk_size = p.snapshot_chunk;
+    }
     c.raft.snapshot.snapshots_dir = dir.join("snapshots");
     c.raft.snapshot.receive_chunk_timeout_in_sec = 2;
     c.raft.snapshot_rpc_timeout_ms = 10_000;
@@ -213,6 +225,9 @@ pub fn make_config(p: &Params, id: u32, initial: Vec<NodeMeta>, dir: &Path) -> R
         idle_flush_interval_ms: p.idle_flush_ms,
     };
     c.raft.state_machine.lease.cleanup_interval_ms = 1000;
+    c.raft.watch.event_queue_size = p.watch_queue;
+    c.raft.watch.watcher_buffer_size = p.watch_buf;
+    c.raft.watch.heartbeat_interval_ms = p.watch_hb_ms;
     c.retry.election.timeout_ms = 100;
     c.retry.election.max_retries = 3;
     c.retry.election.base_delay_ms = 20;
@@ -353,6 +368,21 @@ impl<K: EngineKind> Cluster<K> {
         }
         for i in 1..=self.params.voters {
             self.start(i).await?;
+        }
+        Ok(())
+    }
+
+    /// like `bootstrap` but only the listed voters are started (the others stay down)
+    pub async fn bootstrap_only(&mut self, ids: &[u32]) -> Result<(), Error> {
+        let metas = self.initial_metas();
+        for i in 1..=self.params.voters {
+            let dir = self.base.join(format!("n{i}_0"));
+            std::fs::create_dir_all(&dir)?;
+            let cfg = make_config(&self.params, i, metas.clone(), &dir);
+            self.slots.insert(i, Slot { cfg, dir, inc: 0, live: None });
+        }
+        for i in ids {
+            self.start(*i).await?;
         }
         Ok(())
     }
